@@ -136,6 +136,14 @@ def generate(repo):
         return True
     item("emb_locked", False, emb_locked)
 
+    def cache_get_checks_key():
+        cr = strip_comments(read(repo, "tensor_store/src/cache_ring.rs"))
+        _, body = find_fn(cr, "get", after=r"impl<V:\s*Clone>\s*CacheRing<V>")
+        # get reads the slot number under the index lock and the slot under the slots lock: the slot may
+        # have been re-used in between, so the entry's key must be compared before its value is returned
+        return re.search(r"if\s+entry\.key\s*==\s*key\s*\{[^}]*return\s+Some\(entry\.value\.clone\(\)\)", body, re.S) is not None
+    item("cache_get_checks_key", True, cache_get_checks_key)
+
     def atomic():
         _, b1 = find_fn(src, "put_durable", after=r"impl\s+SlabRouter\b")
         _, b2 = find_fn(src, "delete_durable", after=r"impl\s+SlabRouter\b")
@@ -159,6 +167,8 @@ def generate(repo):
     text += "Definition gen_scan_steps : list N := [%s].\n" % "; ".join(str(x) for x in out["scan_steps"])
     text += "(* every embedding-class arm of put/get/delete/exists starts by taking the key's lock stripe *)\n"
     text += "Definition gen_emb_locked : bool := %s.\n" % ("true" if out["emb_locked"] else "false")
+    text += "(* CacheRing::get compares the slot entry's key before returning its value *)\n"
+    text += "Definition gen_cache_get_checks_key : bool := %s.\n" % ("true" if out["cache_get_checks_key"] else "false")
     text += "(* put_durable / delete_durable: the in-memory apply runs inside the WAL guard's scope *)\n"
     text += "Definition gen_log_apply_atomic : bool := %s.\n" % ("true" if out["log_apply_atomic"] else "false")
     return text, items
